@@ -284,7 +284,9 @@ func readingLoops(c *Ctx, pf *parseFacts, ev *evaluator, ts map[*types.Named]boo
 	for fn := range pf.funcs {
 		fns = append(fns, fn)
 	}
-	sort.Slice(fns, func(i, j int) bool { return c.declKey("parse", pf.funcs[fns[i]]) < c.declKey("parse", pf.funcs[fns[j]]) })
+	sort.Slice(fns, func(i, j int) bool {
+		return c.declKey("parse", pf.funcs[fns[i]]) < c.declKey("parse", pf.funcs[fns[j]])
+	})
 	for _, fn := range fns {
 		fd := pf.funcs[fn]
 		if !nodeScopedTo(fd, pf.info, ts) {
